@@ -216,23 +216,25 @@ func runC06(c *Ctx, idx int, o *Obs) {
 
 		// the same through the command
 		if useCLI && si < 3 {
-			f := tmpFile(c, "in.nw", start+"\n")
+			inArgs, inStdin, inMode := presentTrees(c, r, "in", []string{start}, plainNewick(start))
+			o.Ev("cli_input:"+inMode, 1)
 			var res cliRes
 			mode := si % 2
 			if mode == 0 {
-				cl := []string{"prune", "-i", f}
+				cl := append([]string{"prune"}, inArgs...)
 				if revert {
 					cl = append(cl, "-r")
 				}
-				res = runCLI(c, "", append(cl, args...)...)
+				res = runCLI(c, inStdin, append(cl, args...)...)
 			} else {
 				tf := tmpFile(c, "tips.txt", strings.Join(args, "\n")+"\n")
-				cl := []string{"prune", "-i", f, "-f", tf}
+				cl := append(append([]string{"prune"}, inArgs...), "-f", tf)
 				if revert {
 					cl = append(cl, "-r")
 				}
-				res = runCLI(c, "", cl...)
+				res = runCLI(c, inStdin, cl...)
 			}
+			what += " (input: " + inMode + ")"
 			o.Ev("cli_prune", 1)
 			if !o.Check(res.Exit == 0 && !res.Panic, "cli_prune_failed", what+": "+res.brief(), inp) {
 				continue
